@@ -381,8 +381,13 @@ class Interp(object):
             # a module-level string constant that is never rebound denotes its value
             mod = self.prog.modules.get(r[1])
             defs = mod.assigns.get(r[2], []) if mod is not None else []
-            if len(defs) == 1 and isinstance(defs[0], ast.Constant) and isinstance(defs[0].value, str) and not any(isinstance(n, ast.Global) and r[2] in n.names for n in ast.walk(mod.tree)):
-                return ("const", defs[0].value)
+            if len(defs) == 1 and not any(isinstance(n, ast.Global) and r[2] in n.names for n in ast.walk(mod.tree)):
+                d0 = defs[0]
+                if isinstance(d0, ast.Constant) and isinstance(d0.value, str):
+                    return ("const", d0.value)
+                # ... and so does an immutable tuple of string constants (NAME_ATTRS = ("_name", ...))
+                if isinstance(d0, ast.Tuple) and d0.elts and all(isinstance(x, ast.Constant) and isinstance(x.value, str) for x in d0.elts):
+                    return ("tuple", tuple(("const", x.value) for x in d0.elts))
             return ("global", r[1], r[2])
         if r[0] == "mod":
             return ("extmod", r[1])
@@ -1537,7 +1542,11 @@ class Interp(object):
                         nps.append((acc, q))
                         continue
                     for v, r in self.eval(kw.value, q):
-                        nps.append((acc + ((kw.arg, v),), r))
+                        if kw.arg is None and isinstance(v, tuple) and v and v[0] == "dict" and v[1] and all(isinstance(k, tuple) and k[0] == "const" and isinstance(k[1], str) for k, _v in v[1]):
+                            # f(**{"a": x, "b": y})  ==  f(a=x, b=y)
+                            nps.append((acc + tuple((k[1], vv) for k, vv in v[1]), r))
+                        else:
+                            nps.append((acc + ((kw.arg, v),), r))
                 ps = nps
             for kws, q in ps:
                 res.append((args, kws, q))
